@@ -54,6 +54,9 @@ class Recorder:
         self.raw_times = []
         self.errors = []
         self.all_post_steps = []
+        self.work_snap = {}
+        self.work_obs = {}
+        self.work_bad = []
         self.last_carry = 0
         self.default = None
         self.defect_check = True
@@ -111,6 +114,9 @@ class RecHook(Hooks):
     def pre_step(self, step, level_number):
         super().pre_step(step, level_number)
         self._r('pre_step', step, level_number)
+        r = current()
+        if r is not None and level_number == 0:
+            r.work_snap[step.status.slot] = getattr(step.levels[0].prob, '_verif_rhs_calls', None)
 
     def post_step(self, step, level_number):
         super().post_step(step, level_number)
@@ -119,6 +125,10 @@ class RecHook(Hooks):
         if r is not None:
             L = step.levels[0]
             r.all_post_steps.append((r.tick(L.time + L.dt), step.status.iter, r.hid(L.uend)))
+            now = getattr(L.prob, '_verif_rhs_calls', None)
+            if now is not None and r.work_snap.get(step.status.slot) is not None:
+                r.work_obs[(r.tick(L.time + L.dt), int(step.status.iter), int(step.status.get('restarts_in_a_row') or 0), int(step.status.slot))] = \
+                    now - r.work_snap[step.status.slot]
             r.post_step_obs.append(dict(s=step.status.slot, t=r.tick(L.time), dt=r.tick(L.dt), k=step.status.iter,
                                         rs=bool(step.status.get('restart')), riar=int(step.status.get('restarts_in_a_row') or 0),
                                         u0=r.hid(L.u[0]), ue=r.hid(L.uend), obj=L.uend))
@@ -143,6 +153,10 @@ class RecHook(Hooks):
             L = step.levels[0]
             if L.uend is not None:  # what a per-iteration solution hook logs at this moment
                 r.all_post_steps.append((r.tick(L.time + L.dt), step.status.iter, r.hid(L.uend)))
+            now = getattr(L.prob, '_verif_rhs_calls', None)
+            if now is not None and r.work_snap.get(step.status.slot) is not None:
+                r.work_obs[(r.tick(L.time + L.dt), int(step.status.iter), int(step.status.get('restarts_in_a_row') or 0), int(step.status.slot))] = \
+                    now - r.work_snap[step.status.slot]
 
     def pre_sweep(self, step, level_number):
         super().pre_sweep(step, level_number)
@@ -415,16 +429,17 @@ class TracedController(controller_nonMPI):
         return line
 
 
-PER_STEP_TYPES = ('niter', 'restart', 'dt', 'u')
+PER_STEP_TYPES = ('niter', 'restart', 'dt', 'u', 'work_rhs', 'k')
 
 
 def project_stats(rec, stats):
     """projection of the real statistics dictionary to the entries modelled in PfasstSerial.tla"""
     if stats is None:
-        return dict(has_stats=False, stats=[], filtered=[], filtered_all=[], logged_unchanged=True)
+        return dict(has_stats=False, stats=[], filtered=[], filtered_all=[], logged_unchanged=True, work_ok=True)
     from pySDC.helpers.stats_helper import get_sorted
     ent = []
     logged_ok = True
+    work_ok = True
     seen_ps = {}
     for (t, k, h) in rec.all_post_steps:
         seen_ps.setdefault((t, k), set()).add(h)
@@ -441,6 +456,14 @@ def project_stats(rec, stats):
             val = 1 if v else 0
         elif key.type == 'residual_post_iteration':
             val = 0
+        elif key.type == 'work_rhs':
+            val = 0
+            if int(key.level or 0) != 0:
+                continue
+            want = rec.work_obs.get((rec.tick(key.time), int(key.iter), int(key.num_restarts or 0), int(key.process)))
+            if want is not None and int(v) != want:
+                work_ok = False
+                rec.work_bad.append(dict(time=rec.tick(key.time), iter=int(key.iter), recorded=int(v), calls=want))
         else:
             val = int(v)
         ent.append([key.type, rec.tick(key.time), int(key.iter), int(key.num_restarts or 0), int(key.process),
@@ -448,13 +471,15 @@ def project_stats(rec, stats):
     filtered = []
     for T in PER_STEP_TYPES:
         got = get_sorted(stats, type=T, recomputed=False, sortby='time')
-        filtered.append([T, [[rec.tick(t), (0 if T == 'u' else (rec.tick(v) if T == 'dt' else int(v)))] for t, v in got]])
+        filtered.append([T, [[rec.tick(t), (0 if T in ('u', 'work_rhs') else (rec.tick(v) if T == 'dt' else int(v)))] for t, v in got]])
     from pySDC.helpers.stats_helper import filter_stats
     fall = []
     for key, v in filter_stats(stats, recomputed=False).items():
         if key.type in PER_STEP_TYPES:
-            fall.append([key.type, rec.tick(key.time), 0 if key.type == 'u' else (rec.tick(v) if key.type == 'dt' else int(v))])
-    return dict(has_stats=True, stats=ent, filtered=filtered, filtered_all=fall, logged_unchanged=logged_ok)
+            if key.type == 'work_rhs' and int(key.level or 0) != 0:
+                continue
+            fall.append([key.type, rec.tick(key.time), 0 if key.type in ('u', 'work_rhs') else (rec.tick(v) if key.type == 'dt' else int(v))])
+    return dict(has_stats=True, stats=ent, filtered=filtered, filtered_all=fall, logged_unchanged=logged_ok, work_ok=work_ok)
 
 
 def run_traced(description, controller_params, num_procs, u0_fn, t0, Tend, unit=None, script=None, mode='lattice',
